@@ -121,6 +121,11 @@ class Hist(Part):
         if not ctx.quick:
             runs.append(tlc.run("Archive", MC_CFG % (6, 0, "pareto"), ctx.scratch, workers=16, coverage=False,
                                 name="Archive-mc-6", timeout=3000))
+        # TLAPS side-car (not the deciding mechanism): "content = non-dominated part of everything offered" is an inductive invariant of
+        # the insertion rule for arbitrary universes, arbitrary set sizes and any irreflexive transitive relation -- every history length
+        proved = tlc.tlapm("proofs/ArchiveLaws.tla", ctx.scratch)
+        ctx.notes.append("tlapm proofs/ArchiveLaws.tla: %d obligations proved (insertion keeps mutual non-domination, rejected are dominated or "
+                         "equal, content = NonDominated(offered) is inductive)" % proved)
         return runs
 
     def cases(self, ctx):
